@@ -27,6 +27,13 @@ import (
 
 type hasher struct{ h uint64 }
 
+func b2u(b bool) uint64 {
+	if b {
+		return 1
+	}
+	return 0
+}
+
 func newHasher() *hasher { return &hasher{14695981039346656037} }
 
 func (h *hasher) u64(v uint64) {
@@ -485,6 +492,70 @@ func execStep(env *Env, task int, st *Step) Result {
 		return pathResult(buildPath(st.A).Gridsnap(st.Tol))
 	case "tile":
 		return pathResult(buildPath(st.A).Tile(buildPath(st.B), canvas.SquareCell(st.W)))
+	case "measure":
+		// the read-only queries, folded into one value
+		a := operandA(env, task, st)
+		h := newHasher()
+		b, fb := a.Bounds(), a.FastBounds()
+		for _, v := range []float64{b.X0, b.Y0, b.X1, b.Y1, fb.X0, fb.Y0, fb.X1, fb.Y1, a.Length()} {
+			h.f64(v)
+		}
+		for _, f := range a.Filling(fillRules[st.FillRule%4]) {
+			h.u64(b2u(f))
+		}
+		h.u64(b2u(a.CCW()))
+		n := 0
+		for i := 0; i < 5; i++ {
+			x, y := b.X0+b.W()*(0.1+0.2*float64(i)), b.Y0+b.H()*(0.15+0.17*float64(i))
+			w, onb := a.Windings(x, y)
+			h.u64(uint64(int64(w)))
+			h.u64(b2u(onb))
+			h.u64(b2u(a.Contains(x, y, fillRules[st.FillRule%4])))
+			zs := a.RayIntersections(x, y)
+			n += len(zs)
+			for _, z := range zs {
+				h.f64(z.X)
+				h.f64(z.T[0])
+				h.u64(b2u(z.Tangent))
+			}
+		}
+		for _, d := range a.CoordDirections() {
+			h.f64(d.X)
+			h.f64(d.Y)
+		}
+		return Result{Kind: "measure", Hash: h.h, Brief: fmt.Sprintf("bounds=%v length=%.6g rayhits=%d", b, a.Length(), n)}
+	case "split":
+		// the decomposing operations; every piece goes into one path for hashing
+		a := operandA(env, task, st)
+		r := &canvas.Path{}
+		for _, q := range a.Split() {
+			r = r.Append(q.Reverse())
+		}
+		for _, q := range a.SplitAt(st.W, 2.5*st.W, 7*st.W) {
+			r = r.Append(q)
+		}
+		r = r.Append(a.XMonotone())
+		m := canvas.Rectangle(st.Tol, st.Tol)
+		for _, q := range a.Markers(m, m, m, st.AsPaths) {
+			r = r.Append(q)
+		}
+		return pathResult(r)
+	case "svgpath":
+		// the textual forms and back again
+		a := buildPath(st.A).Transform(canvas.Identity.Rotate(float64(st.Opt)).Scale(1, st.W))
+		svg := a.ToSVG()
+		q, err := canvas.ParseSVGPath(svg)
+		if err != nil {
+			return Result{Kind: "svgpath", Hash: 3, Brief: "parse error: " + err.Error()}
+		}
+		h := newHasher()
+		h.str(svg)
+		h.str(q.ToPS())
+		h.str(q.ToPDF())
+		h.str(q.String())
+		r := pathResult(q)
+		h.u64(r.Hash)
+		return Result{Kind: "svgpath", Hash: h.h, Brief: r.Brief}
 
 	case "textline":
 		face := stepFace(env, st)
